@@ -371,7 +371,7 @@ def addSubtree (dt : Data) (s sub : Store) (parent : Option Int) : Option Store 
     | some pn => do
       let pi ← s.nodeIdx.lookup pn
       let _ ← s.forest.findSub pi
-      pure (s.forest.graftAt pi g)
+      pure (SF.graftAt pi g s.forest)
   let firstLabel := listMaxInt (f1.names ++ sub.nodes) (-1)
   let (data, ni, nir, ren) := relabelGrafted sub g.recs firstLabel s.data s.nodeIdx s.nodeIdxRev []
   let f2 := f1.mapRecs fun n => match ren.lookup n.idx with
@@ -510,6 +510,9 @@ end Store
 
 inductive Op where
   | create (h : Nat) (children : List Int) (data : List Nat)
+  /-- `create_root_node(children)` immediately followed by `add_data_point_to_node(dp, new_node)`
+  (the retained-path construction of `ConditionalSMCSampler._get_constrained_path`) -/
+  | createAdd (h : Nat) (children : List Int) (dp : Nat)
   | addDp (h : Nat) (dp : Nat) (node : Int)
   | rmDp (h : Nat) (dp : Nat) (node : Int)
   | rmOut (h : Nat) (dp : Nat)
@@ -529,6 +532,11 @@ def setH (sys : Sys) (h : Nat) (s : Store) : Sys := sys.set h s
 /-- one edit; `none` = the Python raises -/
 def step (dt : Data) (sys : Sys) : Op → Option Sys
   | .create h ch d => do let s ← sys[h]?; let r ← s.createRootNode dt ch d; pure (setH sys h r.1)
+  | .createAdd h ch dp => do
+      let s ← sys[h]?
+      let r ← s.createRootNode dt ch []
+      let r2 ← r.1.addDataPointToNode dt dp r.2
+      pure (setH sys h r2)
   | .addDp h dp nd => do let s ← sys[h]?; let r ← s.addDataPointToNode dt dp nd; pure (setH sys h r)
   | .rmDp h dp nd => do let s ← sys[h]?; let r ← s.removeDataPointFromNode dt dp nd; pure (setH sys h r)
   | .rmOut h dp => do let s ← sys[h]?; let r ← s.removeDataPointFromOutliers dp; pure (setH sys h r)
